@@ -1,6 +1,7 @@
 package main
 
 import (
+	"bytes"
 	"fmt"
 	"regexp"
 	"strings"
@@ -59,6 +60,14 @@ func expand(v string) string {
 		return "$\x00\xff\xff"
 	case "@frame-dollar-only":
 		return "$"
+	case "@frame-rtcp-oversize":
+		return string(frameBytes(1, append([]byte{0x80, 0xc9, 0x01, 0xf3}, make([]byte, 1996)...)))
+	case "@frame-rtp-3-bytes":
+		return string(frameBytes(0, []byte{0x80, 0x60, 0x00}))
+	case "@frame-rtp-unknown-pt":
+		return string(frameBytes(0, rtpPacket(111, 5, 0x1234, 20)))
+	case "@frame-second-media":
+		return string(frameBytes(3, rtcpSR()))
 	case "@response":
 		return "RTSP/1.0 200 OK\r\nCSeq: 1\r\n\r\n"
 	case "@response-with-body":
@@ -140,6 +149,7 @@ var sdpMenu = [][2]string{
 	{"sdp-pt-out-of-range", "v=0\r\no=- 0 0 IN IP4 127.0.0.1\r\ns=x\r\nc=IN IP4 0.0.0.0\r\nt=0 0\r\nm=video 0 RTP/AVP 999\r\na=rtpmap:999 H264/90000\r\na=control:trackID=0\r\n"},
 	{"sdp-zero-clock-rate", "v=0\r\no=- 0 0 IN IP4 127.0.0.1\r\ns=x\r\nc=IN IP4 0.0.0.0\r\nt=0 0\r\nm=video 0 RTP/AVP 96\r\na=rtpmap:96 FOO/0\r\na=control:trackID=0\r\nm=audio 0 RTP/AVP 0\r\na=control:trackID=1\r\n"},
 	{"sdp-mpeg4audio-bad-config", "v=0\r\no=- 0 0 IN IP4 127.0.0.1\r\ns=x\r\nc=IN IP4 0.0.0.0\r\nt=0 0\r\nm=audio 0 RTP/AVP 96\r\na=rtpmap:96 mpeg4-generic/48000/2\r\na=fmtp:96 profile-level-id=1; mode=AAC-hbr; sizelength=13; indexlength=3; indexdeltalength=3; config=zz\r\na=control:trackID=0\r\n"},
+	{"sdp-mpeg4video-config-ends-with-start-code", "v=0\r\no=- 0 0 IN IP4 127.0.0.1\r\ns=x\r\nc=IN IP4 0.0.0.0\r\nt=0 0\r\nm=video 0 RTP/AVP 96\r\na=rtpmap:96 MP4V-ES/90000\r\na=fmtp:96 profile-level-id=1; config=000001B001000001\r\na=control:trackID=0\r\n"},
 	{"sdp-crypto-keymgmt", "v=0\r\no=- 0 0 IN IP4 127.0.0.1\r\ns=x\r\nc=IN IP4 0.0.0.0\r\nt=0 0\r\na=key-mgmt:mikey AAAA\r\nm=video 0 RTP/SAVP 96\r\na=rtpmap:96 H264/90000\r\na=fmtp:96 packetization-mode=1\r\na=control:trackID=0\r\n"},
 }
 
@@ -169,6 +179,10 @@ var insertMenu = [][2]string{
 	{"frame-length-65535", "@frame-length-65535"},
 	{"frame-length-65535-header-only", "@frame-length-65535-header-only"},
 	{"frame-dollar-only", "@frame-dollar-only"},
+	{"frame-rtcp-oversize", "@frame-rtcp-oversize"},
+	{"frame-rtp-3-bytes", "@frame-rtp-3-bytes"},
+	{"frame-rtp-unknown-payload-type", "@frame-rtp-unknown-pt"},
+	{"frame-second-media-channel", "@frame-second-media"},
 	{"garbage-zeros", "@zeros64"},
 	{"garbage-ff", "@ff64"},
 	{"garbage-binary", "@bin256"},
@@ -369,6 +383,20 @@ func singleDevs(conv string) []Dev {
 	for _, m := range httpMenu {
 		add(m[0], "insert-raw", 0, "", m[1])
 	}
+	// a well-formed request that does not belong here, at every position
+	for p := 0; p <= len(steps); p++ {
+		for _, m := range []string{"PAUSE", "PLAY", "RECORD", "TEARDOWN", "ANNOUNCE", "SETUP", "GET_PARAMETER", "SET_PARAMETER", "OPTIONS", "DESCRIBE", "REDIRECT"} {
+			add("extra-"+lower(m), "insert-req", p, m, "")
+		}
+	}
+	for i := range steps {
+		if isReq(&steps[i]) {
+			add("bare-lf-line-endings", "lf-only", i, "", "")
+		}
+	}
+	// the same conversation on a second hostile connection, step by step in lock-step with the first
+	add("duplicate-conversation-on-second-connection", "duplicate-conv", 0, "", "")
+	add("plaintext-to-tls-port", "no-tls", 0, "", "")
 	// conversation-specific
 	switch conv {
 	case "http-tunnel":
@@ -381,6 +409,12 @@ func singleDevs(conv string) []Dev {
 		add("get-cookie-5000", "replace-raw", 0, "", string(httpReq("GET", strings.Repeat("c", 5000), false)))
 		add("post-http-1.0", "replace-raw", 1, "", strings.Replace(string(httpReq("POST", "cookie123", true)), "HTTP/1.1", "HTTP/1.0", 1))
 		add("get-on-post-connection", "same-conn", 1, "", "")
+		for p := 1; p <= len(steps); p++ {
+			add("close-get-connection", "close-conn", p, "0", "")
+			if p >= 2 {
+				add("close-post-connection", "close-conn", p, "1", "")
+			}
+		}
 	case "websocket":
 		add("ws-key-invalid", "replace-raw", 0, "", string(wsUpgrade("short", "13", "rtsp.onvif.org")))
 		add("ws-version-unsupported", "replace-raw", 0, "", string(wsUpgrade(wsKey, "8", "rtsp.onvif.org")))
@@ -408,13 +442,64 @@ func spliceDevs(conv string) []Dev {
 	return out
 }
 
+// truncWhere names the place at which a cut at byte offset off of the rendered stream lands (the KIND of
+// truncation, used in the deviation class): in the first 4 bytes of a connection, in an HTTP head, in a
+// request line / header block / body, in an interleaved frame, in base64 / WebSocket wrapped data, or at a
+// step boundary.
+func truncWhere(steps []Step, off int) string {
+	o := 0
+	firstOnConn := map[int]bool{}
+	for i := range steps {
+		s := &steps[i]
+		if s.Kind == "udp" {
+			continue
+		}
+		b := s.render(dummySID)
+		first := !firstOnConn[s.Conn]
+		firstOnConn[s.Conn] = true
+		if off >= o+len(b) {
+			o += len(b)
+			continue
+		}
+		rel := off - o
+		switch {
+		case first && rel < 4:
+			return "in-first-4-bytes"
+		case rel == 0:
+			return "at-step-boundary"
+		case s.Wrap == "b64":
+			return "in-base64"
+		case s.Wrap == "ws":
+			return "in-ws-frame"
+		case s.Kind == "req":
+			txt := string(b)
+			if rel <= strings.Index(txt, "\r\n")+1 {
+				return "in-request-line"
+			}
+			if rel < strings.Index(txt, "\r\n\r\n")+4 {
+				return "in-headers"
+			}
+			return "in-body"
+		case len(b) > 0 && b[0] == '$':
+			return "in-frame"
+		case bytes.HasPrefix(b, []byte("GET ")) || bytes.HasPrefix(b, []byte("POST")):
+			return "in-http-head"
+		case len(b) > 0 && b[0]&0x70 == 0 && b[0]&0x80 != 0:
+			return "in-ws-frame"
+		}
+		return "in-raw-bytes"
+	}
+	return "at-end"
+}
+
 // truncDevs: cut the byte stream at every offset, then close / go silent.
 func truncDevs(conv string, ends []string, stride int) []Dev {
 	var out []Dev
-	n := streamLen(baseConv(conv))
+	steps := baseConv(conv)
+	n := streamLen(steps)
 	for _, e := range ends {
 		for off := 0; off <= n; off += stride {
-			out = append(out, Dev{Class: "truncate-at-offset-then-" + e, Op: "trunc", Pos: off, Val: e})
+			out = append(out, Dev{Class: "truncate-" + truncWhere(steps, off) + "-then-" + e, Op: "trunc", Pos: off, Val: e})
 		}
 	}
 	return out
@@ -452,6 +537,46 @@ func apply(steps []Step, d Dev) ([]Step, bool) {
 			s.Wrap = nb.Wrap
 		}
 		return ins(d.Pos, s), true
+	case "insert-req":
+		if d.Pos > len(steps) {
+			return nil, false
+		}
+		nb := neighbour(d.Pos)
+		r := extraRequest(d.Key)
+		r.Wrap, r.Conn, r.RConn, r.Grp = nb.Wrap, nb.Conn, nb.RConn, nb.Grp
+		if nb.Kind != "req" && nb.Wrap == "" && (nb.Conn != 0 || len(nb.Raw) > 0 && nb.Raw[0] != '$') {
+			// neighbours that are HTTP heads: the request travels like the conversation's requests
+			for i := range steps {
+				if steps[i].Kind == "req" {
+					r.Wrap, r.Conn, r.RConn = steps[i].Wrap, steps[i].Conn, steps[i].RConn
+					break
+				}
+			}
+		}
+		return ins(d.Pos, r), true
+	case "close-conn":
+		if d.Pos > len(steps) {
+			return nil, false
+		}
+		c := 0
+		fmt.Sscan(d.Key, &c)
+		return ins(d.Pos, Step{Kind: "close", Name: "CLOSE-CONN", Conn: c, RConn: c}), true
+	case "duplicate-conv":
+		var out []Step
+		for _, st := range steps {
+			out = append(out, st)
+			c := st.clone()
+			c.Conn += 10
+			c.RConn += 10
+			c.Grp = 1
+			if c.Kind == "udp" {
+				continue
+			}
+			out = append(out, c)
+		}
+		return out, true
+	case "no-tls":
+		return steps, true
 	case "splice":
 		if d.Pos > len(steps) {
 			return nil, false
@@ -526,6 +651,11 @@ func apply(steps []Step, d Dev) ([]Step, bool) {
 			return nil, false
 		}
 		s.URL = strings.ReplaceAll(d.Val, "@A5000", strings.Repeat("A", 5000))
+	case "lf-only":
+		if !isReq(s) {
+			return nil, false
+		}
+		*s = Step{Kind: "raw", Name: "LF:" + s.Name, Raw: []byte(strings.ReplaceAll(string(s.render("{S}")), "\r\n", "\n")), Conn: s.Conn, RConn: s.RConn, Expect: s.Expect, Grp: s.Grp}
 	case "replace-raw":
 		*s = Step{Kind: "raw", Name: "REPL:" + d.Class, Raw: []byte(expand(d.Val)), Wrap: s.Wrap, Conn: s.Conn, RConn: s.RConn, Expect: s.Expect}
 	case "swap":
@@ -557,6 +687,21 @@ func apply(steps []Step, d Dev) ([]Step, bool) {
 		panic("unknown deviation op " + d.Op)
 	}
 	return steps, true
+}
+
+func extraRequest(method string) Step {
+	sess := Hdr{"Session", "{S}"}
+	switch method {
+	case "ANNOUNCE":
+		return withBody(req("X-ANNOUNCE", "ANNOUNCE", baseURL, 90, sess), "application/sdp", sdp2)
+	case "SETUP":
+		return req("X-SETUP", "SETUP", baseURL+"/trackID=0", 90, Hdr{"Transport", transportFor("tcp", 0, false)}, sess)
+	case "GET_PARAMETER", "SET_PARAMETER":
+		return withBody(req("X-"+method, method, baseURL, 90, sess), "text/parameters", "position\r\n")
+	case "DESCRIBE":
+		return req("X-DESCRIBE", "DESCRIBE", baseURL, 90, Hdr{"Accept", "application/sdp"}, sess, Hdr{"Authorization", basicAuth})
+	}
+	return req("X-"+method, method, baseURL, 90, sess)
 }
 
 func applyAll(conv string, devs []Dev) ([]Step, bool) {
